@@ -102,6 +102,9 @@ pub fn render_value(d: &AliasDef) -> String {
 // ---------------------------------------------------------------------------
 pub struct Gen {
     pub rng: StdRng,
+    /// generate while/until loops (never for lines that are executed: the
+    /// probe functions succeed, so a loop would not end)
+    pub loops: bool,
 }
 
 pub const NAMES: [&str; 5] = ["a", "b", "c", "d", "e"];
@@ -110,7 +113,7 @@ const ASSIGNS: [&str; 5] = ["v=a", "v=b", "v=c", "v=d", "v=1"];
 
 impl Gen {
     pub fn new(seed: u64) -> Self {
-        Gen { rng: StdRng::seed_from_u64(seed) }
+        Gen { rng: StdRng::seed_from_u64(seed), loops: true }
     }
     fn pick<'a>(&mut self, xs: &[&'a str]) -> &'a str {
         xs[self.rng.gen_range(0..xs.len())]
@@ -125,7 +128,11 @@ impl Gen {
         } else if r < 60 {
             self.pick(&WORDS).to_string()
         } else if r < 80 {
-            self.pick(&["!", "{", "}", "if", "then", "fi", "else", "do", "done", "while"]).to_string()
+            if self.loops {
+                self.pick(&["!", "{", "}", "if", "then", "fi", "else", "do", "done", "while"]).to_string()
+            } else {
+                self.pick(&["!", "{", "}", "if", "then", "fi", "else"]).to_string()
+            }
         } else if r < 92 {
             self.pick(&["|", ";", "&&", "||", ">", "<"]).to_string()
         } else {
@@ -182,7 +189,7 @@ impl Gen {
             self.list(depth - 1, out);
             out.push(";".into());
             out.push("}".into());
-        } else if r >= 95 {
+        } else if r >= 95 && self.loops {
             out.push(self.pick(&["while", "until"]).to_string());
             self.list(depth - 1, out);
             out.push(";".into());
